@@ -79,7 +79,7 @@ def h(cfg):
 
 
 INHERIT = dict(sched.PLAIN, n=4, fixed_parent=[-1, -1, 1, -1], link_pairs=[(0, 1), (2, 3), (0, 3)], resources=['r', 'q'], E=8, scenarios=[(0, -1)])
-INHERIT_B = dict(sched.PLAIN, n=4, fixed_parent=[-1, -1, -1, 2], link_pairs=[(1, 2), (0, 3), (0, 1)], E=8, scenarios=[(0, -1)])
+INHERIT_B = dict(sched.PLAIN, n=4, fixed_parent=[-1, -1, -1, 2], link_pairs=[(1, 2), (0, 3), (0, 1)], resources=['r', 'q'], E=8, scenarios=[(0, -1)])
 SUMMARY_SUCC = dict(sched.PLAIN, n=4, fixed_parent=[-1, -1, 1, 1], link_pairs=[(0, 1), (2, 3)], resources=['r', 'q'], E=8, scenarios=[(0, -1)])
 
 
